@@ -208,6 +208,21 @@ Proof.
     eapply hb_trans; [eapply IH; eauto | eapply hb_fork; eauto].
 Qed.
 
+(* publication through a lock (e.g. a registry map guarded by a mutex): the creator releases
+   l at or after the publication point, a thread that acquires l later sees the object
+   published *)
+Lemma lock_handover_published tr t0 p a0 r l m1 u a m2 :
+  at_ tr p (t0, a0) -> p <= r -> at_ tr r (t0, Rel l m1) ->
+  r < a -> at_ tr a (u, Acq l m2) -> (m1 = Excl \/ m2 = Excl) ->
+  forall k b, a < k -> at_ tr k (u, b) -> hb tr p k.
+Proof.
+  intros Hp Hpr Hr Hra Ha Hm k b Hak Hk.
+  assert (Hrk : hb tr r k).
+  { eapply hb_trans; [eapply hb_sw with (i := r) (j := a); eauto | eapply hb_po; eauto]. }
+  destruct (Nat.eq_dec p r) as [->|Hne]; [exact Hrk|].
+  eapply hb_trans; [|exact Hrk]. eapply hb_po with (i := p) (j := r); eauto. lia.
+Qed.
+
 (* ------------------------------------------------------------------ the theorem *)
 
 (* two conflicting accesses that both follow the discipline are ordered *)
